@@ -21,7 +21,7 @@ MANIFEST = {
              'algorithmic invariant over run histories and is not decided. g is uc::ACC_GRAV (checked to lie in [9.78, 9.83]). Reals.'),
 }
 EXPLANATION = 'SVN terms of update_res / calc_res per direction vs the physical reference formulas; provenance of reported front/back values.'
-RULES = ['C07-1.forces', 'C07-2.strap', 'C07-3.report', 'C07-4.resnet', 'C07-5.aggregate', 'C07-6.fresh', 'C07-7.sibling', 'C07-8.index']
+RULES = ['C07-1.forces', 'C07-2.strap', 'C07-3.report', 'C07-4.resnet', 'C07-5.aggregate', 'C07-6.fresh', 'C07-7.sibling', 'C07-8.index', 'C07-9.profile']
 ASSUMPTIONS = ['train length > 0', 'cached indices are correct for the current offsets (not decided)', 'identities over the reals']
 
 DIRS = ((0, 'Unk'), (1, 'Fwd'), (2, 'Bwd'))
@@ -35,6 +35,11 @@ def val(C, i, x):
 
 def run(ctx):
     index_search(ctx)
+    # grade and curve resistance are read off the cumulative path profile: its construction (C06-2 / C06-3 / C06-8) is a necessary
+    # condition here too and is reported under this property as well
+    from .common import RuleProxy
+    from . import C06
+    C06.run(RuleProxy(ctx, {'C06-2.grades': 'C07-9.profile', 'C06-3.curves': 'C07-9.profile', 'C06-8.value': 'C07-9.profile', 'C06-9.finish': 'C07-9.profile'}))
     prog = ctx.prog
     eng = engine(ctx)
     g = eng.const_value('uc::ACC_GRAV')
